@@ -443,7 +443,12 @@ func c11Container(w *World, r *Recorder) {
 // the container) that takes a list of component interfaces and returns a list
 // plus an error. Whether it does its job is judged by the walk rule.
 func c11IsConverter(w *World, fn *ssa.Function) (bool, *ssa.Parameter) {
-	if fn == nil || fn.Blocks == nil || !w.InRepo(fn) || fn.Signature.Recv() != nil {
+	if fn == nil || fn.Blocks == nil || !w.InRepo(fn) {
+		return false, nil
+	}
+	// a function, or an unexported method of the container (same role, the
+	// receiver being one more argument)
+	if fn.Signature.Recv() != nil && ssaExported(fn) {
 		return false, nil
 	}
 	res := fn.Signature.Results()
